@@ -79,8 +79,13 @@ def make_fit_file(ctx, rng, d, n_rec, with_fluxes, n_models=None, many=False, eq
         from sedfitter.source import Source
         ft = Fitter(bn, theta * u.arcsec, d, extinction_law=law, av_range=(0.0, 20.0), distance_range=[1.0, 2.0] * u.kpc)
         fo = FitInfoFile(out, 'w')
+        src_ = Source()          # ONE source object, re-filled for every line (a loop that re-uses its work object)
         for i, line in enumerate(open(data).read().splitlines()):
-            info = ft.fit(Source.from_ascii(line))
+            fresh_ = Source.from_ascii(line)
+            src_.valid, src_.flux, src_.error = None, None, None
+            src_.name, src_.x, src_.y = fresh_.name, fresh_.x, fresh_.y
+            src_.valid, src_.flux, src_.error = fresh_.valid, fresh_.flux, fresh_.error
+            info = ft.fit(src_)
             info.keep(sel)
             if not with_fluxes:
                 info.model_fluxes = None
